@@ -482,11 +482,11 @@ func (r *runner) gapConfig(cfg string) {
 // ---- Engine B: seeded random cases, judged by TLC
 
 type brec struct {
-	rec  map[string]any
-	cs   Case
-	obs  Observed
-	cls  string
-	want string
+	rec map[string]any
+	cs  Case
+	obs Observed
+	cls string
+	key string
 }
 
 func (r *runner) engineB(nIndexes, qPerIndex int, names Naming, tag string, riskyShare int) ([]brec, error) {
@@ -568,11 +568,11 @@ func (r *runner) engineB(nIndexes, qPerIndex int, names Naming, tag string, risk
 	}
 	wg.Wait()
 	// deterministic order
-	sort.SliceStable(recs, func(i, j int) bool {
-		a, _ := json.Marshal(recs[i].rec)
-		b, _ := json.Marshal(recs[j].rec)
-		return string(a) < string(b)
-	})
+	for i := range recs {
+		b, _ := json.Marshal(recs[i].rec)
+		recs[i].key = string(b)
+	}
+	sort.SliceStable(recs, func(i, j int) bool { return recs[i].key < recs[j].key })
 	return recs, nil
 }
 
@@ -587,8 +587,7 @@ func (r *runner) judge(recs []brec, maxFail int, extra ...string) error {
 	list = append(list, header)
 	for i := range recs {
 		list = append(list, recs[i].rec)
-		b, _ := json.Marshal(recs[i].rec)
-		c.Distinct("b|" + string(b))
+		c.Distinct("b|" + recs[i].key)
 	}
 	bad1, err := c.JudgeRecords("JudgeNested", "JudgeNested.cfg", list, maxFail, core.Timeout(20*time.Minute))
 	if err != nil {
@@ -847,6 +846,34 @@ func replay(c *core.Ctx, path string) error {
 		if fl := compare(obs, want); fl != nil {
 			c.Violation(f.Signature, "replayed: "+fl.What, f.Replay)
 		}
+		return nil
+	}
+	// a case that TLC judged: judge the fresh observation again
+	if obs.Err != "" {
+		c.Violation(f.Signature, "replayed: "+obs.Err, f.Replay)
+		return nil
+	}
+	final := Final(cs.Steps)
+	docsJSON := []any{}
+	for _, id := range sortedIDs(final) {
+		docsJSON = append(docsJSON, map[string]any{"id": id, "doc": final[id]})
+	}
+	hits := []any{}
+	for _, h := range obs.Hits {
+		hits = append(hits, map[string]any{"id": h.ID, "sub": h.Sub})
+	}
+	rec := map[string]any{"kind": []string(cs.Kind), "docs": docsJSON, "q": *cs.Query, "cls": ClassOf(*cs.Query, cs.Kind),
+		"hits": hits, "total": obs.Total, "docCount": dc}
+	bad, err := c.JudgeRecords("JudgeNested", "JudgeNested.cfg", []any{map[string]any{"header": 1}, rec}, 1)
+	if err != nil {
+		return err
+	}
+	c.Traces(1)
+	if inv, rejected := bad[1]; rejected {
+		fmt.Printf("  TLC rejects the replayed observation: %s\n", inv)
+		c.Violation(f.Signature, "replayed: TLC rejects the observation ("+inv+")", f.Replay)
+	} else {
+		fmt.Printf("  TLC accepts the replayed observation\n")
 	}
 	return nil
 }
